@@ -235,9 +235,10 @@ def body_history(h):
     elif which == 'erase-layout':
         # three arrays, erase one: the others keep content and stay contiguous / disjoint
         sizes = [h.concretize(h.int('d%d' % q, 0, 2), 4) for q in range(3)]
-        names = [b'A!', b'LONGNAME%', b'C#']
-        for nm, d in zip(names, sizes):
-            arr.allocate(nm, [d])
+        names = h.params.get('names', [b'A!', b'LONGNAME%', b'C#'])
+        ndims = h.params.get('ndims', [1, 1, 1])
+        for nm, d, nd in zip(names, sizes, ndims):
+            arr.allocate(nm, [d] + [1] * (nd - 1))
         fill = {}
         for nm in names:
             b = arr._buffers[nm]
@@ -252,10 +253,14 @@ def body_history(h):
         okl = True
         for nm in rest:
             name_ptr, array_ptr = arr._array_memory[nm]
-            rec = 1 + max(3, len(nm)) + 3 + 2
+            rec = 1 + max(3, len(nm)) + 3 + 2 * ndims[names.index(nm)]
             okl = okl and name_ptr == pos and array_ptr == pos + rec
             pos = array_ptr + len(arr._buffers[nm])
             h.require('content-kept-' + nm[:1].decode(), bytes_eq(list(arr._buffers[nm]), list(fill[nm])))
+            # PEEK at VARPTR of the first element still returns the element (C11)
+            if len(arr._buffers[nm]):
+                vp = arr.varptr(nm, [0] * ndims[names.index(nm)])
+                h.require('peek-at-varptr-after-erase-' + nm[:1].decode(), arr.get_memory(vp) == list(fill[nm])[0])
         h.require('records-contiguous', okl and arr.current == pos)
         obs = [sizes, victim]
     return obs
@@ -285,4 +290,10 @@ def cases(tier):
                        params={'which': 'implicit', 'n': n, 'range': rng}, max_fanout=2000))
         cs.append(Case('dim-%dd' % n, body_history, params={'which': 'dim', 'n': n}))
     cs.append(Case('erase-layout', body_history, params={'which': 'erase-layout'}))
+    cs.append(Case('erase-layout-2d-3d', body_history,
+                   params={'which': 'erase-layout', 'names': [b'A!', b'M%', b'C#'], 'ndims': [1, 2, 3]}))
+    cs.append(Case('erase-layout-long-names', body_history,
+                   params={'which': 'erase-layout', 'ndims': [2, 1, 1],
+                           'names': [b'A234567890123456789012345678901234567890%',
+                                     b'B23456789012345678901234567890123456789!', b'C#']}))
     return cs
